@@ -16,6 +16,7 @@ Decided:
              AuxiliaryFileDetected.
 Not decided: what external crates create internally (atomic-write-file's temporary sibling lives in the memory's
 directory during a commit and is renamed/removed by the crate; trusted)."""
+import re
 from . import lib
 from .facts import Place, op_place
 
@@ -172,6 +173,51 @@ def _guard(ctx, F):
         missing = FORBIDDEN - lits
         errs = lib.enum_constructions(es, 'MemvidError', 'AuxiliaryFileDetected')
         ex = [c for c in es.calls() if c.name in ('exists', 'try_exists')]
+        # the probes may be skipped only when the path has no parent at all: cut the None arm of the match on the
+        # *direct* result of Path::parent(); any other way to reach Ok without a probe is a hole in the guard
+        cut = set()
+        for vs in lib.variant_switches(es):
+            if vs.get('enum') == 'Option' and 'None' in vs['arms'] and not vs['place'].p:
+                dd = [x for x in lib.defs(es).get(vs['place'].l, []) if x['kind'] == 'call']
+                alias = [x for x in lib.defs(es).get(vs['place'].l, []) if x['kind'] == 'stmt' and x['rv']['k'] == 'use']
+                src = dd[0]['call'] if dd else None
+                if src is None and alias:
+                    q = op_place(alias[0]['rv']['a'])
+                    d2 = [x for x in lib.defs(es).get(q.l, []) if x['kind'] == 'call'] if q is not None else []
+                    src = d2[0]['call'] if d2 else None
+                if src is not None and src.name == 'parent' and 'Path' in (src.callee or src.key):
+                    cut.add((vs['bb'], vs['arms']['None']))
+                # `for x in [a, b, c, d]`: before any iteration (the search below never continues past a probe, i.e. past a
+                # loop body) the exhausted arm of next() on a non-empty array iterator is infeasible
+                if src is not None and src.name == 'next' and src.args:
+                    rp = op_place(src.args[0])
+                    tys = ' '.join(es.local_ty(l) for l in (lib.root_of(es, rp.l) | {rp.l})) if rp is not None else ''
+                    m = re.search(r'array::IntoIter<[^;]*?, (\d+)>', tys) or re.search(r'IntoIter<[^>]*, (\d+)>', tys)
+                    if m and int(m.group(1)) > 0:
+                        cut.add((vs['bb'], vs['arms']['None']))
+        probe_blocks = {c.bb for c in ex}
+        holes = []
+        for exx in es.ok_exits():
+            if exx['kind'] != 'ok':
+                continue
+            # reachable from entry without the None-of-parent edge and without passing a probe?
+            seen, st = set(), [0]
+            while st:
+                b = st.pop()
+                if b in seen or b in probe_blocks:
+                    continue
+                seen.add(b)
+                for nx in es.succs(b):
+                    if (b, nx) not in cut:
+                        st.append(nx)
+            if exx['bb'] in seen:
+                holes.append(exx)
+        ctx.evaluations += len(es.blocks)
+        if holes:
+            ctx.bad('GUARD-C19c', es, 'ensure_single_file can return Ok without probing any forbidden name although the path has a parent: the sidecar guard is bypassed for some paths '
+                    '(only `path.parent()` being None may skip the scan)', line=holes[0]['line'], detail='probe-bypass')
+        elif ex:
+            ctx.ok('GUARD-C19c', es, 'Ok is reachable only through the probes, or when path.parent() is None')
         if not missing and errs and ex:
             ctx.ok('GUARD-C19c', es, 'probes all eight forbidden sidecar names and rejects with AuxiliaryFileDetected')
         else:
